@@ -4,6 +4,7 @@ package query
 //verif:pkg lib/query
 //verif:setup VerifC05MultiSetup
 //verif:harness VerifC05MultiTable mode=bv tier=quick split=4
+//verif:harness VerifC05UpdateFrom mode=bv tier=quick split=4
 
 import (
 	"strconv"
@@ -15,7 +16,17 @@ import (
 
 var verifC05Multi [][]parser.Statement
 
+var verifC05From [][]parser.Statement
+
 func VerifC05MultiSetup() {
+	for _, s := range []string{
+		"update i set i.price = p.price from prices p join items i on p.sku = i.sku",
+		"update i set i.price = p.price from items i join prices p on p.sku = i.sku",
+		"update items set price = (select max(p.price) from prices p where p.sku = items.sku) where sku in (select sku from prices)",
+		"update i set i.price = p.price from items i, prices p where p.sku = i.sku and p.price < @x",
+	} {
+		verifC05From = append(verifC05From, verifParse(s+";"))
+	}
 	for _, s := range []string{
 		"update t, u set t.a = @p, u.b = @q from t inner join u on t.id = u.id where t.a < @x",
 		"delete t, u from t inner join u on t.id = u.id where t.a < @x",
@@ -131,4 +142,80 @@ func VerifC05MultiTable() {
 	}
 	verifObserve("hit", int64(nhit))
 	verifReach("end")
+}
+
+// UPDATE ... FROM a join, with the updated table on either side of the join: items (3 rows) and prices
+// (3 rows) carry keys from {0, 1} and {0, 1, 2}; a threshold on the price is arbitrary.  A record of the updated table that two
+// joined rows would set is refused ("ambiguous") and nothing changes; otherwise every record gets the
+// value of its one partner, records without a partner keep theirs, and the count is the number of
+// records with a partner - whatever the order in which the join delivers the pairs.
+func VerifC05UpdateFrom() {
+	tx := verifNewTx()
+	tx.Flags.Quiet = true
+	proc := NewProcessor(tx)
+	scope := proc.ReferenceScope
+	var isku, psku [3]int
+	var price [3]int64
+	irows := make([][]value.Primary, 3)
+	prows := make([][]value.Primary, 3)
+	for i := 0; i < 3; i++ {
+		isku[i] = verifChoice("item-sku", 2)
+		irows[i] = []value.Primary{value.NewInteger(int64(i)), value.NewInteger(int64(isku[i])), value.NewInteger(-1)}
+	}
+	for j := 0; j < 3; j++ {
+		psku[j] = verifChoice("price-sku", 3)
+		price[j] = int64(10 * (j + 1)) // the subject is which records pair up, not the amounts
+		prows[j] = []value.Primary{value.NewInteger(int64(psku[j])), value.NewInteger(price[j])}
+	}
+	verifTempTable(scope, "items", []string{"id", "sku", "price"}, irows)
+	verifTempTable(scope, "prices", []string{"sku", "price"}, prows)
+	x := verifInt64("x")
+	verifVar(scope, "x", value.NewInteger(x))
+	si := verifChoice("statement", len(verifC05From))
+	_, err := proc.Execute(ContextForStoringResults(verifCtx()), verifC05From[si])
+	got := verifStored(scope, "ITEMS")
+	verifAssert("no rows added or removed", got.RecordLen() == 3)
+	partners := func(i int) (n int, last int64, max int64) {
+		for j := 0; j < 3; j++ {
+			if psku[j] == isku[i] && (si != 3 || price[j] < x) {
+				if n == 0 || price[j] > max {
+					max = price[j]
+				}
+				n++
+				last = price[j]
+			}
+		}
+		return
+	}
+	ambiguous := false
+	for i := 0; i < 3; i++ {
+		if n, _, _ := partners(i); n > 1 && si != 2 {
+			ambiguous = true
+		}
+	}
+	verifAssert("refused exactly when two joined rows would set one record", (err != nil) == ambiguous)
+	cnt := 0
+	for i := 0; i < 3 && i < got.RecordLen(); i++ {
+		n, last, max := partners(i)
+		want := int64(-1)
+		if err == nil && n > 0 {
+			want = last
+			if si == 2 {
+				want = max
+			}
+			cnt++
+		}
+		verifAssert("price after the statement", verifIntIs(got.RecordSet[i][2][0], want))
+		verifAssert("other cells untouched", verifIntIs(got.RecordSet[i][0][0], int64(i)) && verifIntIs(got.RecordSet[i][1][0], int64(isku[i])))
+	}
+	if err == nil {
+		verifAssert("reported number of updated records", tx.AffectedRows == cnt)
+	}
+	verifObserveBool("refused", err != nil)
+	verifReach("end")
+}
+
+func verifIntIs(p value.Primary, want int64) bool {
+	i, ok := p.(*value.Integer)
+	return ok && i.Raw() == want
 }
